@@ -246,6 +246,7 @@ int main() {
         try { s.Evolve(dt4 / 4.0); } catch (std::exception& e) { threw = true; }
         flush_rhs(); calls.clear();
         printf("EVOLVEN %d %ld %.17g\n", threw ? 1 : 0, cur.nrhs, s.Get_t());
+      } else if (cmd == "MARK") { puts("MARK");
       } else if (cmd == "TDEP") { int b; in >> o >> b; S(o - 1).tdep = b;
       } else if (cmd == "HMIN") { double x; in >> o >> x; S(o - 1).Set_h_min(x);
       } else if (cmd == "SCALE") { int e2; in >> o >> e2; S(o - 1).scale_state(std::ldexp(1.0, e2));
